@@ -209,8 +209,21 @@ def verify_unit(repo, unit_dir, workdir, canary=True, rlimit=None):
     unit = os.path.basename(unit_dir.rstrip('/'))
     out = dict(unit=unit, undecided=[], failures=[], fns=[], rewrites=[], dropped={}, assumptions=[], canary={}, wall=0.0)
     t0 = time.time()
+    pre_relaxed = []
     try:
-        g, text = extract.generate(repo, tpl)
+        while True:
+            try:
+                g, text = extract.generate(repo, tpl, relaxed=pre_relaxed)
+                break
+            except extract.Undecided as e:
+                # a position-based annotation (closure / loop / ghost anchor) no longer finds its place: the function
+                # changed shape.  Regenerate it without those annotations; what then fails is a `relaxed` failure
+                # (a violation only together with a failing concrete witness, otherwise undecided).
+                m = re.match(r'lost anchor: (?:closure|loop|ghost)\b.* fn (\S+)', str(e))
+                if not m or m.group(1) in pre_relaxed or len(pre_relaxed) >= 3:
+                    raise
+                pre_relaxed.append(m.group(1))
+                out.setdefault('undecided_original', []).append(str(e))
     except extract.Undecided as e:
         out['undecided'].append(str(e))
         out['wall'] = time.time() - t0
@@ -241,8 +254,12 @@ def verify_unit(repo, unit_dir, workdir, canary=True, rlimit=None):
     # Relaxed retry: compile errors inside functions whose body changed shape (position-based closure / loop / ghost
     # annotations no longer fit). Those functions are regenerated WITHOUT their annotations; whatever then fails is
     # reported as a `relaxed` failure, which bin/check turns into a violation only if a concrete witness fails too.
-    out['relaxed_fns'] = []
-    if pr['undecided'] and not pr['failures']:
+    out['relaxed_fns'] = list(pre_relaxed)
+    if pre_relaxed:
+        for f in pr['failures']:
+            if f['fn'] in pre_relaxed:
+                f['relaxed'] = True
+    if pr['undecided'] and not pr['failures'] and not pre_relaxed:
         bad_lines = [int(x) for u in pr['undecided'] for x in re.findall(r'@ line (\d+)', u)]
         relax = sorted({f['label'] for ln in bad_lines for f in g.fns if f['gen_start'] <= ln <= f['body'][1]})
         if relax and len(relax) <= 4:
@@ -271,7 +288,7 @@ def verify_unit(repo, unit_dir, workdir, canary=True, rlimit=None):
     out['verified_fns'] = [f['label'] for f in g.fns if f['label'] not in failed] if not pr['undecided'] else []
     if canary and not out['undecided']:
         try:
-            gc, ctext = extract.generate(repo, tpl, canary=True)
+            gc, ctext = extract.generate(repo, tpl, canary=True, relaxed=out.get('relaxed_fns', []))
         except extract.Undecided as e:
             out['undecided'].append('canary generation: ' + str(e))
             gc = None
